@@ -233,3 +233,55 @@ def optional_tokens_after_whitespace(prog, rep, rule="E7.o"):
                   "it the token is silently taken as absent, so the same program parses differently under another layout" % (tok, sorted(st)))
     rep.extra.setdefault("layout_summaries", {k.rsplit("::", 1)[-1]: sorted(v) for k, v in sorted(lay.summary.items()) if "{closure" not in k})
     return n
+
+
+# (caller, callee) pairs where the grammar wants the next token to follow *directly* (no whitespace in between): confirmed by reading
+ADJACENT = {
+    ("parse_global", "parse_quantifier"): "a quantifier directly follows the global's name (`global xs*`)",
+    ("parse_into_file", "parse_identifier"): "`inherit .name`: the name directly follows the dot",
+    ("parse_identifier", "parse_name"): "delegation: parse_identifier is parse_name plus a conversion",
+    ("parse_literal", "parse_name"): "`#true`: the literal's name directly follows the `#`",
+}
+
+
+def syntactic_calls_after_whitespace(prog, rep, rule="E7.p"):
+    """every place where the parser goes on to the next syntactic item — a `parse_*` function, or a mandatory token / keyword — is
+    reached in the whitespace-skipped state; the listed adjacent pairs are the grammar's own exceptions"""
+    rep.rule(rule, "every call of a parse_* function or of a mandatory consume_token / consume_keyword is made in the whitespace-skipped state "
+                   "(same WS/TOK typestate as E7.o), except the listed adjacent pairs: whitespace and comments are allowed between any two items")
+    lay = Layout(prog)
+    n = 0
+    counts = {}
+    for fid, f in sorted(lay.fns.items()):
+        if f.kind == "closure":
+            continue
+        inn, _ = lay.states(fid)
+        for b, t in sorted(f.body.calls()):
+            if b not in inn:
+                continue
+            g = lay._callee(t)
+            if g is None or g.kind == "closure":
+                continue
+            syntactic = (g.name.startswith("parse_") and g.name != "parse_name") or (g.name in TOKEN_FNS and b not in lay.silent[fid])
+            if not syntactic or f.name in TOKEN_FNS:
+                continue
+            st = lay._apply(inn[b], lay.entry[fid])
+            k = (f.name, g.name)
+            counts[k] = counts.get(k, 0) + 1
+            key = "%s :: %s #%d" % (f.id, g.name, counts[k])
+            n += 1
+            if st == {WS}:
+                rep.ok(rule, key, sp_str(t["sp"]), "reached after consume_whitespace on every path")
+            elif k in ADJACENT:
+                rep.ok(rule, key, sp_str(t["sp"]), "adjacent by grammar: " + ADJACENT[k])
+            elif g.name not in TOKEN_FNS and WS not in lay.summary[g.id]:
+                # a lexical function (it never skips whitespace itself: a name, a quantifier, a numeral): gluing it to the previous
+                # character is the grammar's choice of token (`@name`, `#true`, `.name`), not a layout dependence
+                rep.ok(rule, key, sp_str(t["sp"]), "lexical callee (reads one token, never skips whitespace): adjacent to the preceding sigil")
+            elif TOK not in inn[b]:
+                # the function itself has consumed nothing before this call: the state is its callers', judged at their call sites
+                rep.ok(rule, key, sp_str(t["sp"]), "first item of the function: position as handed in by the callers (judged there)")
+            else:
+                rep.violation(rule, key, sp_str(t["sp"]), "%s is called directly after something was consumed (state %s): whitespace, a line break or a comment "
+                              "at this point of the text makes the parse fail or take another turn, so the same program parses differently under another layout" % (g.name, sorted(st)))
+    return n
